@@ -212,7 +212,7 @@ b="$(cat gen2.in 2>/dev/null || echo none)"
 printf 'gen[%s|%s|%s]' "$a" "$b" "$($(bin :tool))" > gen.txt
 printf 'extra' > gen.extra
 echo "end $GROG_TARGET" >> "$VTRACE"`
-	gen := hist.Target{Pkg: "b", Name: "gen", Command: genCmd, Inputs: []string{"gen.in", "gen2.in"}, Outputs: []string{"gen.txt"}, Deps: []string{":tool"}}
+	gen := hist.Target{Pkg: "b", Name: "gen", Command: genCmd, Inputs: []string{"gen.in", "gen2.in"}, Outputs: []string{"./gen.txt"}, Deps: []string{":tool"}} // the output is spelled non-canonically on purpose
 	if w.T[tgGenExtra] {
 		gen.Outputs = append(gen.Outputs, "gen.extra") // same bytes (same digest) as //a:lib's extra.txt
 	}
